@@ -164,12 +164,12 @@ class LatticeRun:
         self.coverage = {}
 
 
-def run_vcell_family(name, spec, tier, seed, cases_file, inputs_file=None):
+def run_vcell_family(name, spec, tier, seed, cases_file, inputs_file=None, extra_invs=()):
     cfg = os.path.join(OUT, "tlc", "vcell_%s.cfg" % name)
     consts = dict(Inputs=("<-", "MCInputs"), Ties="keep", Order=spec["order"],
                   LGx=spec["G"][0], LGy=spec["G"][1], LGz=spec["G"][2], LDim=spec["dim"], LPer=spec["per"],
                   LNmin=spec["nmin"], LNmax=spec["nmax"], LFix=spec["fix"], UseFile=inputs_file is not None, Emit=True)
-    write_cfg(cfg, constants=consts, invariants=VCELL_INVS + ["EmitCaseFull"],
+    write_cfg(cfg, constants=consts, invariants=VCELL_INVS + list(extra_invs) + ["EmitCaseFull"],
               view="AbstractView" if (spec["view"] and inputs_file is None) else None)
     env = {"VV_INPUTS": inputs_file} if inputs_file else {"VV_INPUTS": "/dev/null"}
     with open(cases_file, "a") as f:
@@ -196,7 +196,7 @@ def filter_ftrace(path, needed):
 
 
 def lattice_pipeline(families, tier, seed, sim=None, profile="release", features=None, tag="L", trace_cells=1200,
-                     own_tags=None):
+                     own_tags=None, extra_invs=()):
     """TLC(VCell) -> cases -> harness replay-cells -> VCellTrace on the sampled trace and on the
     traces of all failing runs.  Returns a LatticeRun."""
     ensure_dirs()
@@ -204,7 +204,7 @@ def lattice_pipeline(families, tier, seed, sim=None, profile="release", features
     cases_file = os.path.join(OUT, "%s_cases.ndjson" % tag)
     open(cases_file, "w").close()
     for name in families:
-        r = run_vcell_family(name, FAMILIES[name], tier, seed, cases_file)
+        r = run_vcell_family(name, FAMILIES[name], tier, seed, cases_file, extra_invs=extra_invs)
         run.states += r.distinct
         run.transitions += r.states
         run.tlc_wall += r.wall
@@ -219,7 +219,7 @@ def lattice_pipeline(families, tier, seed, sim=None, profile="release", features
             for i in inputs:
                 f.write(json.dumps(i) + "\n")
         spec = fam((1, 1, 1), 3, False, 1, 1, order="fixed", fix=False, view=False)
-        r = run_vcell_family("sim", spec, tier, seed, cases_file, inputs_file=inf)
+        r = run_vcell_family("sim", spec, tier, seed, cases_file, inputs_file=inf, extra_invs=extra_invs)
         run.states += r.distinct
         run.transitions += r.states
         run.tlc_wall += r.wall
@@ -407,14 +407,14 @@ def check_C01(tier, seed):
 
 
 def generic_lattice_check(prop, tier, seed, quick_fams, thorough_fams, sim_quick, sim_thorough, own_tags, verdict_props,
-                          rule, profiles=("release",), trace_cells=800, with_tess=False):
+                          rule, profiles=("release",), trace_cells=800, with_tess=False, extra_invs=()):
     out = Outcome(prop, tier, seed)
     fams = quick_fams if tier == "quick" else thorough_fams
     sim = sim_quick if tier == "quick" else sim_thorough
     total_cells = 0
     for profile in profiles:
         run = lattice_pipeline(fams, tier, seed, sim=sim, profile=profile, tag="%s_%s" % (prop, profile),
-                               own_tags=own_tags, trace_cells=trace_cells)
+                               own_tags=own_tags, trace_cells=trace_cells, extra_invs=extra_invs)
         apply_lattice(out, run, own_tags, verdict_props)
         total_cells += run.cells_compared
         out.coverage.setdefault("profiles", {})[profile] = run.hstats
@@ -469,6 +469,18 @@ def check_C05(tier, seed):
         "finite values and pass the C01-C04 comparisons; distinct = (input, embedding, cell) triples; non-vacuity: "
         "harness.runs_with_exact counts runs in which the exact predicate was consulted",
         profiles=("release", "dev"), with_tess=True)
+    # isolated near-ties: "a vertex is removed iff the integer oracle says inside" - the exact predicate (the tie breaker of every
+    # clip decision) replayed on TLC's vectors, incl. co-spherical +-1 cases on the 52-bit grid, in both profiles
+    cases_file = pred_cases(out, tier, "C05")
+    for profile in ("release", "dev"):
+        binp = build_harness(profile=profile)
+        res_file = os.path.join(OUT, "C05_pred_%s.json" % profile)
+        run_harness(binp, ["pred", "--cases", cases_file, "--out", res_file, "--seed", str(seed)])
+        res = json.load(open(res_file))
+        log("pred replay for C05 (%s): %s" % (profile, res["stats"]))
+        for f in res["failures"]:
+            out.violation("tie breaker: %s [%s profile] detail=%s" % (f["what"], profile, json.dumps(f["detail"])[:300]), f)
+        out.coverage.setdefault("tie_breaker_replay", {})[profile] = res["stats"]
     return out.finish()
 
 
@@ -508,7 +520,7 @@ def check_C16(tier, seed):
         "safety radius of every replayed cell >= 2 * exact distance (active subspace) to the farthest point TLC computed "
         "and >= distance to every neighbour with a face; every recorded termination validated by VCellTrace (a builder "
         "that stops while a vertex is farther than half the distance to the next candidate is rejected)",
-        trace_cells=2000, with_tess=True)
+        trace_cells=2000, with_tess=True, extra_invs=("FarIrrelevant",))
     return out.finish()
 
 
